@@ -24,7 +24,7 @@ import numpy as np
 from numpy.typing import NDArray
 
 from ..docstrings import document_load_one
-from ..utils import LineIterator
+from ..utils import LineIterator, LoadError
 
 __all__ = ()
 
@@ -62,6 +62,9 @@ def load_one(lit: LineIterator) -> dict:
             words = line.split()
             dipole = np.array([float(words[4]), float(words[5]), float(words[6])])
             result["moments"] = {(1, "c"): dipole}
+    missing = [name for name in ("atcoords", "atnums", "energy") if name not in result]
+    if missing:
+        raise LoadError(f"Could not find {', '.join(missing)} in the ORCA output.", lit)
     return result
 
 
